@@ -123,7 +123,7 @@ theorem handleCapAck_setPass (c : Client) (caps : List Bytes) : handleCapAck (se
   split <;> rfl
 
 theorem h_CAP_setPass (c : Client) (l : Line) : h_CAP (setPass p c) l = (h_CAP c l).withPass p := by
-  unfold h_CAP
+  unfold h_CAP handleCapNak
   simp only [negotiate_setPass, handleCapAck_setPass]
   pass_comm
 
